@@ -893,6 +893,25 @@ func runC14(c *Ctx) {
 				map[string]interface{}{"verb": "PARSE", "case": sx, "text": txt, "go": trunc(res, 600), "want": "error"})
 		}
 	}
+	// a variable stays a variable when it arrives through a parameter: inside a set it is an
+	// error like a literal variable, outside a set it is that variable
+	for _, txt := range []string{"h($x) <- g($x, [1, {pv}]);", "check if g($x), [{pv}, 2].contains($x);", "check if g($x), [\"a\", {pv}].contains(\"a\");", "h($x) <- g($x), [{pv}].length() == 1;"} {
+		sx := parseCaseSx("block", txt, map[string]Term{"pv": V("x")})
+		res := execCase("PARSE", sx)
+		c.Case("PARSE", c.NewID("err"), sx, res)
+		c.Count("err:variable-in-set-through-parameter:" + strings.SplitN(res, " ", 2)[0])
+		c.NonTrivial(txt)
+		if res != "error" {
+			c.Violate("C14/error-not-reported:variable-in-set:parameter", "a variable inside a set is not reported when it arrives through a parameter: "+txt+" -> "+trunc(res, 200),
+				map[string]interface{}{"verb": "PARSE", "case": sx, "text": txt, "go": trunc(res, 600), "want": "error"})
+		}
+	}
+	for _, txt := range []string{"h($x) <- g({pv});", "check if g({pv}), {pv} == 1;"} {
+		sx := parseCaseSx("block", txt, map[string]Term{"pv": V("x")})
+		res := execCase("PARSE", sx)
+		c.Case("PARSE", c.NewID("gen"), sx, res)
+		c.Count("variable-through-parameter:" + strings.SplitN(res, " ", 2)[0])
+	}
 	for _, kind := range []string{"single"} {
 		for _, txt := range []string{"f({nilp})", "h($x) <- g($x, {nilp})", "check if g({nilp})", "allow if g({nilp})"} {
 			sx := parseCaseSx(kind, txt, map[string]Term{"nilp": {K: 'n'}})
